@@ -26,34 +26,26 @@ Proof.
 Qed.
 
 (* every exit of the loop other than a leaking cancellation runs the epilogue *)
-Lemma loop_ledger : forall p L0 h base hp,
+Lemma loop_ledger : forall p L0 h base hp fp,
   lp_leak p = false ->
-  r_exit (loop p (lg_add L0 (lp_subs p)) base hp h) <> XPending ->
-  r_ledger (loop p (lg_add L0 (lp_subs p)) base hp h) = L0.
+  r_exit (loop p (lg_add L0 (lp_subs p)) base hp fp h) <> XPending ->
+  r_ledger (loop p (lg_add L0 (lp_subs p)) base hp fp h) = L0.
 Proof.
-  intros p L0 h. induction h as [|[t o] rest IH]; intros base hp Hleak Hx.
+  intros p L0 h. induction h as [|[t o] rest IH]; intros base hp fp Hleak Hx.
   - cbn [loop] in *. destruct (earliest (timers p base hp)) as [[tm r]|]; cbn in *.
     + apply lg_sub_add.
     + congruence.
   - cbn [loop] in *.
-    destruct (earliest (timers p base hp)) as [[tm r]|].
-    + destruct (tm <=? t); [cbn; apply lg_sub_add|].
-      destruct o as [r0 n|n| |r0 n|]; cbn in *.
-      * destruct (lp_state p); [|apply IH; assumption].
-        destruct r0; [destruct (lp_hold p)| |]; cbn in *; try apply lg_sub_add; apply IH; assumption.
-      * destruct (lp_state p); apply IH; assumption.
-      * apply IH; assumption.
-      * destruct (lp_event p); [|apply IH; assumption].
-        destruct r0; cbn in *; try apply lg_sub_add; apply IH; assumption.
-      * rewrite Hleak. apply lg_sub_add.
-    + destruct o as [r0 n|n| |r0 n|]; cbn in *.
-      * destruct (lp_state p); [|apply IH; assumption].
-        destruct r0; [destruct (lp_hold p)| |]; cbn in *; try apply lg_sub_add; apply IH; assumption.
-      * destruct (lp_state p); apply IH; assumption.
-      * apply IH; assumption.
-      * destruct (lp_event p); [|apply IH; assumption].
-        destruct r0; cbn in *; try apply lg_sub_add; apply IH; assumption.
-      * rewrite Hleak. apply lg_sub_add.
+    destruct (earliest (timers p base hp)) as [[tm r]|]; [destruct (tm <=? t); [cbn; apply lg_sub_add|]|];
+      (destruct o as [r0 n|n| |r0 n|]; cbn in *;
+       [ destruct (lp_state p); [|apply IH; assumption];
+         destruct r0; [destruct (hf_passed (lp_hf p) fp t); [destruct (lp_hold p)|]| |]; cbn in *;
+         try apply lg_sub_add; apply IH; assumption
+       | destruct (lp_state p); [destruct (lp_attr_false p)|]; apply IH; assumption
+       | apply IH; assumption
+       | destruct (lp_event p); [|apply IH; assumption];
+         destruct r0; cbn in *; try apply lg_sub_add; apply IH; assumption
+       | rewrite Hleak; apply lg_sub_add ]).
 Qed.
 
 (* C15, last sentence, for the conformant model: on every exit path the ledger is what it was before the call *)
@@ -66,7 +58,7 @@ Proof.
     + destruct (a_timeout a) as [T|]; [|reflexivity].
       intros Hx. rewrite <- (lg_add_zero L0) in Hx |- * at 1.
       apply (loop_ledger (mkp a (Some T) false false false false lg_zero) L0); [reflexivity|exact Hx].
-    + destruct (immediate (cn_eff true a) a (truth_after init pre)) as [[x|] hp0]; [reflexivity|].
+    + destruct (immediate (cn_eff true a) a (truth_after init pre)) as [[[x|] hp0] fp0]; [reflexivity|].
       destruct (a_badexpr a); [cbn; intros _; apply lg_sub_add2|].
       match goal with |- context [if ?c then _ else _] => destruct c end.
       * cbn. intros _. apply lg_sub_add_add.
@@ -79,7 +71,7 @@ Proof.
     destruct (no_args a && match a_timeout a with None => true | Some _ => false end); [reflexivity|].
     destruct (a_badexpr a); [reflexivity|].
     match goal with |- context [if ?c then _ else _] => destruct c end; [reflexivity|].
-    destruct (immediate (cn_eff false a) a (truth_after init pre)) as [[x|] hp0]; [reflexivity|].
+    destruct (immediate (cn_eff false a) a (truth_after init pre)) as [[[x|] hp0] fp0]; [reflexivity|].
     match goal with |- context [if ?c then _ else _] => destruct c end; [reflexivity|].
     apply (loop_ledger (mkp a (dm_timeout all_off a) false false false false (dm_subs all_off a)) L0). reflexivity.
 Qed.
@@ -136,140 +128,135 @@ Qed.
 Lemma hp_ok_weaken : forall a lo lo' hp, lo' <= lo -> hp_ok a lo hp -> hp_ok a lo' hp.
 Proof. intros a lo lo' hp Hle Hok te r H. specialize (Hok te r H). lia. Qed.
 
-Lemma first_occ_lb : forall a h lo hp t x,
-  args_ok a -> timed_from lo h -> hp_ok a lo hp -> first_occ a hp h = Some (t, x) -> lo <= t.
-Proof.
-  intros a h. induction h as [|[t0 o] rest IH]; intros lo hp t x Ha Ht Hok Hf.
-  - cbn [first_occ] in Hf. destruct (expiry (a_hold a) hp) as [[te r]|] eqn:E; [|discriminate].
-    inversion Hf; subst. apply (Hok _ _ E).
-  - cbn [first_occ] in Hf. destruct Ht as [Hlo Ht].
-    assert (Hrec : forall hp', hp_ok a t0 hp' -> first_occ a hp' rest = Some (t, x) -> lo <= t).
-    { intros hp' Hok' Hf'. specialize (IH t0 hp' t x Ha Ht Hok' Hf'). lia. }
-    destruct (expiry (a_hold a) hp) as [[te r]|] eqn:E.
-    + destruct (te <=? t0) eqn:Ele.
-      * inversion Hf; subst. apply (Hok _ _ E).
-      * assert (Hok0 : hp_ok a t0 hp).
-        { intros te' r' E'. rewrite E in E'. inversion E'; subst. lia. }
-        destruct o as [r0 n|n| |r0 n|].
-        -- destruct (a_state a); [|eapply Hrec; eauto].
-           destruct r0; [destruct (a_hold a) eqn:Eh| |].
-           ++ eapply Hrec; [|exact Hf]. apply hp_ok_start; assumption.
-           ++ inversion Hf; subst; lia.
-           ++ eapply Hrec; [|exact Hf]. apply hp_ok_none.
-           ++ inversion Hf; subst; lia.
-        -- eapply Hrec; eauto.
-        -- eapply Hrec; eauto.
-        -- destruct (a_event a); [|eapply Hrec; eauto].
-           destruct r0; try (inversion Hf; subst; lia). eapply Hrec; eauto.
-        -- inversion Hf; subst; lia.
-    + assert (Hok0 : hp_ok a t0 hp).
-      { intros te' r' E'. rewrite E in E'. discriminate. }
-      destruct o as [r0 n|n| |r0 n|].
-      * destruct (a_state a); [|eapply Hrec; eauto].
-        destruct r0; [destruct (a_hold a) eqn:Eh| |].
-        -- eapply Hrec; [|exact Hf]. apply hp_ok_start; assumption.
-        -- inversion Hf; subst; lia.
-        -- eapply Hrec; [|exact Hf]. apply hp_ok_none.
-        -- inversion Hf; subst; lia.
-      * eapply Hrec; eauto.
-      * eapply Hrec; eauto.
-      * destruct (a_event a); [|eapply Hrec; eauto].
-        destruct r0; try (inversion Hf; subst; lia). eapply Hrec; eauto.
-      * inversion Hf; subst; lia.
-Qed.
-
 (* one-step unfoldings with the let-bound continuation named *)
-Definition deliver_of (p : lparams) (L : ledger) (base : Z) (hp : option (Z * N)) (t : Z) (o : occ) (rest : hist) : result :=
+Definition deliver_of (p : lparams) (L : ledger) (base : Z) (hp : option (Z * N)) (fp : option Z) (t : Z) (o : occ)
+  (rest : hist) : result :=
   let release := lg_sub L (lp_subs p) in
   match o with
   | OCancel => done XCancelled t (if lp_leak p then L else release)
-  | OUnw => loop p L base hp rest
-  | OAttr _ => if lp_state p then loop p L (wake p base t) (if lp_attr_false p then None else hp) rest
-               else loop p L base hp rest
+  | OUnw => loop p L base hp fp rest
+  | OAttr _ => if lp_state p then
+                 if lp_attr_false p then loop p L (wake p base t) None (fp_on_false (lp_hf p) fp t) rest
+                 else loop p L (wake p base t) hp fp rest
+               else loop p L base hp fp rest
   | OState r n =>
       if lp_state p then
         match r with
         | SRaise => done (XExc EState) t release
         | STrue =>
-            match lp_hold p with
-            | None => done (XRet (RState n)) t release
-            | Some _ => loop p L (wake p base t)
-                             (match hp with
-                              | None => Some (t, n)
-                              | Some (ts, m) => Some (ts, if lp_latest p then n else m)
-                              end) rest
-            end
-        | SFalse => loop p L (wake p base t) None rest
+            if hf_passed (lp_hf p) fp t then
+              match lp_hold p with
+              | None => done (XRet (RState n)) t release
+              | Some _ => loop p L (wake p base t)
+                               (match hp with
+                                | None => Some (t, n)
+                                | Some (ts, m) => Some (ts, if lp_latest p then n else m)
+                                end) (fp_on_true (lp_hf p) fp) rest
+              end
+            else loop p L (wake p base t)
+                      (match hp with None => None | Some (ts, m) => Some (ts, if lp_latest p then n else m) end)
+                      (fp_on_true (lp_hf p) fp) rest
+        | SFalse => loop p L (wake p base t) None (fp_on_false (lp_hf p) fp t) rest
         end
-      else loop p L base hp rest
+      else loop p L base hp fp rest
   | OEvent r n =>
       if lp_event p then
         match r with
         | SRaise => done (XExc EEvent) t release
         | STrue => done (XRet (REvent n)) t release
-        | SFalse => loop p L (wake p base t) hp rest
+        | SFalse => loop p L (wake p base t) hp fp rest
         end
-      else loop p L base hp rest
+      else loop p L base hp fp rest
   end.
 
-Lemma loop_cons : forall p L base hp t o rest,
-  loop p L base hp ((t, o) :: rest)
+Lemma loop_cons : forall p L base hp fp t o rest,
+  loop p L base hp fp ((t, o) :: rest)
   = match earliest (timers p base hp) with
-    | Some (tm, r) => if tm <=? t then done (XRet r) tm (lg_sub L (lp_subs p)) else deliver_of p L base hp t o rest
-    | None => deliver_of p L base hp t o rest
+    | Some (tm, r) => if tm <=? t then done (XRet r) tm (lg_sub L (lp_subs p)) else deliver_of p L base hp fp t o rest
+    | None => deliver_of p L base hp fp t o rest
     end.
 Proof. reflexivity. Qed.
 
-Definition here_of (a : wargs) (hp : option (Z * N)) (t : Z) (o : occ) (rest : hist) : option (Z * exit) :=
+Definition here_of (a : wargs) (hp : option (Z * N)) (fp : option Z) (t : Z) (o : occ) (rest : hist) : option (Z * exit) :=
   match o with
   | OCancel => Some (t, XCancelled)
-  | OUnw | OAttr _ => first_occ a hp rest
+  | OUnw | OAttr _ => first_occ a hp fp rest
   | OState r n =>
       if a_state a then
         match r with
         | SRaise => Some (t, XExc EState)
-        | STrue => match a_hold a with
-                   | None => Some (t, XRet (RState n))
-                   | Some _ => first_occ a (match hp with None => Some (t, n) | Some _ => hp end) rest
-                   end
-        | SFalse => first_occ a None rest
+        | STrue =>
+            if hf_passed (a_hf a) fp t then
+              match a_hold a with
+              | None => Some (t, XRet (RState n))
+              | Some _ => first_occ a (match hp with None => Some (t, n) | Some _ => hp end) (fp_on_true (a_hf a) fp) rest
+              end
+            else first_occ a hp (fp_on_true (a_hf a) fp) rest
+        | SFalse => first_occ a None (fp_on_false (a_hf a) fp t) rest
         end
-      else first_occ a hp rest
+      else first_occ a hp fp rest
   | OEvent r n =>
       if a_event a then
         match r with
         | SRaise => Some (t, XExc EEvent)
         | STrue => Some (t, XRet (REvent n))
-        | SFalse => first_occ a hp rest
+        | SFalse => first_occ a hp fp rest
         end
-      else first_occ a hp rest
+      else first_occ a hp fp rest
   end.
 
-Lemma first_occ_cons : forall a hp t o rest,
-  first_occ a hp ((t, o) :: rest)
+Lemma first_occ_cons : forall a hp fp t o rest,
+  first_occ a hp fp ((t, o) :: rest)
   = match expiry (a_hold a) hp with
-    | Some (te, r) => if te <=? t then Some (te, XRet r) else here_of a hp t o rest
-    | None => here_of a hp t o rest
+    | Some (te, r) => if te <=? t then Some (te, XRet r) else here_of a hp fp t o rest
+    | None => here_of a hp fp t o rest
     end.
 Proof. reflexivity. Qed.
 
-Lemma here_lb : forall a hp t o rest t' x,
-  args_ok a -> timed_from t rest -> hp_ok a t hp -> here_of a hp t o rest = Some (t', x) -> t <= t'.
+(* a lower bound for the continuation, given one for the recursive calls *)
+Lemma here_lb_gen : forall a hp fp t o rest t' x,
+  args_ok a -> hp_ok a t hp ->
+  (forall hp' fp', hp_ok a t hp' -> first_occ a hp' fp' rest = Some (t', x) -> t <= t') ->
+  here_of a hp fp t o rest = Some (t', x) -> t <= t'.
 Proof.
-  intros a hp t o rest t' x Ha Ht Hok Hf.
-  assert (Hrec : forall hp', hp_ok a t hp' -> first_occ a hp' rest = Some (t', x) -> t <= t')
-    by (intros hp' Hok' Hf'; eapply first_occ_lb; eauto).
+  intros a hp fp t o rest t' x Ha Hok Hrec Hf.
   destruct o as [r0 n|n| |r0 n|]; cbn [here_of] in Hf.
   - destruct (a_state a); [|eauto].
-    destruct r0; [destruct (a_hold a) eqn:Eh| |].
+    destruct r0; [destruct (hf_passed (a_hf a) fp t); [destruct (a_hold a) eqn:Eh|]| |].
     + eapply Hrec; [|exact Hf]. apply hp_ok_start; assumption.
     + inversion Hf; subst; lia.
+    + eauto.
     + eapply Hrec; [|exact Hf]. apply hp_ok_none.
     + inversion Hf; subst; lia.
   - eauto.
   - eauto.
   - destruct (a_event a); [|eauto]. destruct r0; try (inversion Hf; subst; lia). eauto.
   - inversion Hf; subst; lia.
+Qed.
+
+Lemma first_occ_lb : forall a h lo hp fp t x,
+  args_ok a -> timed_from lo h -> hp_ok a lo hp -> first_occ a hp fp h = Some (t, x) -> lo <= t.
+Proof.
+  intros a h. induction h as [|[t0 o] rest IH]; intros lo hp fp t x Ha Ht Hok Hf.
+  - cbn [first_occ] in Hf. destruct (expiry (a_hold a) hp) as [[te r]|] eqn:E; [|discriminate].
+    inversion Hf; subst. apply (Hok _ _ E).
+  - rewrite first_occ_cons in Hf. destruct Ht as [Hlo Ht].
+    assert (Hrec : forall hp' fp', hp_ok a t0 hp' -> first_occ a hp' fp' rest = Some (t, x) -> t0 <= t)
+      by (intros hp' fp' Hok' Hf'; exact (IH t0 hp' fp' t x Ha Ht Hok' Hf')).
+    destruct (expiry (a_hold a) hp) as [[te r]|] eqn:E.
+    + destruct (te <=? t0) eqn:Ele.
+      * inversion Hf; subst. apply (Hok _ _ E).
+      * assert (Hok0 : hp_ok a t0 hp) by (intros te' r' E'; rewrite E in E'; inversion E'; subst; lia).
+        pose proof (here_lb_gen a hp fp t0 o rest t x Ha Hok0 Hrec Hf). lia.
+    + assert (Hok0 : hp_ok a t0 hp) by (intros te' r' E'; rewrite E in E'; discriminate).
+      pose proof (here_lb_gen a hp fp t0 o rest t x Ha Hok0 Hrec Hf). lia.
+Qed.
+
+Lemma here_lb : forall a hp fp t o rest t' x,
+  args_ok a -> timed_from t rest -> hp_ok a t hp -> here_of a hp fp t o rest = Some (t', x) -> t <= t'.
+Proof.
+  intros a hp fp t o rest t' x Ha Ht Hok Hf.
+  eapply here_lb_gen; eauto. intros hp' fp' Hok' Hf'. eapply first_occ_lb; eauto.
 Qed.
 
 Definition static_not_due (S : option (Z * ret)) (t : Z) : Prop :=
@@ -281,20 +268,24 @@ Proof.
   destruct (ts <=? t) eqn:E; [lia|reflexivity].
 Qed.
 
-Lemma deliver_here : forall a T lk subs L hp t o rest S,
+Lemma deliver_here : forall a T lk subs L hp fp t o rest S,
   args_ok a -> hp_ok a t hp -> static_not_due S t ->
-  (forall hp', hp_ok a t hp' ->
-     outcome (loop (mkp a T false lk false false subs) L 0 hp' rest) = pick S (first_occ a hp' rest)) ->
-  outcome (deliver_of (mkp a T false lk false false subs) L 0 hp t o rest) = pick S (here_of a hp t o rest).
+  (forall hp' fp', hp_ok a t hp' ->
+     outcome (loop (mkp a T false lk false false subs) L 0 hp' fp' rest) = pick S (first_occ a hp' fp' rest)) ->
+  outcome (deliver_of (mkp a T false lk false false subs) L 0 hp fp t o rest) = pick S (here_of a hp fp t o rest).
 Proof.
-  intros a T lk subs L hp t o rest S Ha Hok Hnd Hcont.
-  destruct o as [r0 n|n| |r0 n|]; cbn [deliver_of here_of mkp lp_state lp_event lp_hold lp_restart lp_latest lp_attr_false wake].
+  intros a T lk subs L hp fp t o rest S Ha Hok Hnd Hcont.
+  destruct o as [r0 n|n| |r0 n|];
+    cbn [deliver_of here_of mkp lp_state lp_event lp_hold lp_hf lp_restart lp_latest lp_attr_false wake].
   - destruct (a_state a); [|apply Hcont; assumption].
-    destruct r0; [destruct (a_hold a) eqn:Eh| |].
+    destruct r0; [destruct (hf_passed (a_hf a) fp t); [destruct (a_hold a) eqn:Eh|]| |].
     + replace (match hp with Some (ts, m) => Some (ts, m) | None => Some (t, n) end)
         with (match hp with Some _ => hp | None => Some (t, n) end) by (destruct hp as [[? ?]|]; reflexivity).
       apply Hcont. apply hp_ok_start; assumption.
     + rewrite pick_not_due_here by assumption. reflexivity.
+    + replace (match hp with Some (ts, m) => Some (ts, m) | None => None end) with hp
+        by (destruct hp as [[? ?]|]; reflexivity).
+      apply Hcont. assumption.
     + apply Hcont. apply hp_ok_none.
     + rewrite pick_not_due_here by assumption. reflexivity.
   - destruct (a_state a); apply Hcont; assumption.
@@ -307,26 +298,24 @@ Qed.
 (* the conformant loop (no re-basing of `now`) returns the earlier of the earliest fixed instant and the first
    qualifying occurrence *)
 Lemma loop_spec : forall a T lk subs, args_ok a ->
-  forall h L lo hp, timed_from lo h -> hp_ok a lo hp ->
-  outcome (loop (mkp a T false lk false false subs) L 0 hp h)
+  forall h L lo hp fp, timed_from lo h -> hp_ok a lo hp ->
+  outcome (loop (mkp a T false lk false false subs) L 0 hp fp h)
   = pick (earliest (map (fun o => (o, RTime o)) (future_offs a) ++ map (fun T => (T, RTimeout)) (opt_list T)))
-         (first_occ a hp h).
+         (first_occ a hp fp h).
 Proof.
   intros a T lk subs Ha.
   set (S := earliest (map (fun o => (o, RTime o)) (future_offs a) ++ map (fun T => (T, RTimeout)) (opt_list T))).
-  induction h as [|[t o] rest IH]; intros L lo hp Ht Hok.
+  induction h as [|[t o] rest IH]; intros L lo hp fp Ht Hok.
   - cbn [loop first_occ]. rewrite earliest_timers. fold S.
     destruct S as [[ts rs]|]; destruct (expiry (a_hold a) hp) as [[te re]|]; cbn [emin pick]; try reflexivity.
     destruct (ts <=? te); reflexivity.
   - rewrite loop_cons, first_occ_cons, earliest_timers. fold S. destruct Ht as [Hlo Ht].
-    assert (Hcont : forall hp', hp_ok a t hp' ->
-              outcome (loop (mkp a T false lk false false subs) L 0 hp' rest) = pick S (first_occ a hp' rest))
-      by (intros hp' Hok'; apply IH with (lo := t); assumption).
-    (* is the hold period due at or before t? *)
+    assert (Hcont : forall hp' fp', hp_ok a t hp' ->
+              outcome (loop (mkp a T false lk false false subs) L 0 hp' fp' rest) = pick S (first_occ a hp' fp' rest))
+      by (intros hp' fp' Hok'; apply IH with (lo := t); assumption).
     destruct (expiry (a_hold a) hp) as [[te re]|] eqn:EE.
     + destruct (te <=? t) eqn:Ete.
-      * (* due: both sides fire the earlier of S and the expiry *)
-        destruct S as [[ts rs]|]; cbn [emin pick].
+      * destruct S as [[ts rs]|]; cbn [emin pick].
         -- destruct (ts <=? te) eqn:E1.
            ++ replace (ts <=? t) with true by lia. reflexivity.
            ++ rewrite Ete. reflexivity.
@@ -335,8 +324,7 @@ Proof.
         destruct S as [[ts rs]|] eqn:ES; cbn [emin].
         -- destruct (ts <=? te) eqn:E1.
            ++ destruct (ts <=? t) eqn:E2.
-              ** (* the fixed instant is due *)
-                 destruct (here_of a hp t o rest) as [[t' x]|] eqn:EH; cbn [pick]; [|reflexivity].
+              ** destruct (here_of a hp fp t o rest) as [[t' x]|] eqn:EH; cbn [pick]; [|reflexivity].
                  assert (t <= t') by (eapply here_lb; eauto).
                  replace (ts <=? t') with true by lia. reflexivity.
               ** apply deliver_here; try assumption. cbn. lia.
@@ -345,7 +333,7 @@ Proof.
     + assert (Hok0 : hp_ok a t hp) by (intros te' r' E'; rewrite EE in E'; discriminate).
       destruct S as [[ts rs]|] eqn:ES; cbn [emin].
       * destruct (ts <=? t) eqn:E2.
-        -- destruct (here_of a hp t o rest) as [[t' x]|] eqn:EH; cbn [pick]; [|reflexivity].
+        -- destruct (here_of a hp fp t o rest) as [[t' x]|] eqn:EH; cbn [pick]; [|reflexivity].
            assert (t <= t') by (eapply here_lb; eauto).
            replace (ts <=? t') with true by lia. reflexivity.
         -- apply deliver_here; try assumption. cbn. lia.
@@ -357,15 +345,15 @@ Lemma statics_nil : forall a,
   = match future_offs a, a_timeout a with [], None => true | _, _ => false end.
 Proof. intros a. unfold statics. destruct (future_offs a); destruct (a_timeout a); reflexivity. Qed.
 
-Lemma immediate_hp_ok : forall cn a truth hp0, args_ok a -> immediate cn a truth = (None, hp0) -> hp_ok a 0 hp0.
+Lemma immediate_hp_ok : forall cn a truth hp0 fp0, args_ok a -> immediate cn a truth = (None, hp0, fp0) -> hp_ok a 0 hp0.
 Proof.
-  intros cn a truth hp0 [Hh _] H. unfold immediate in H.
-  destruct (a_state a && cn); [|inversion H; apply hp_ok_none].
-  destruct truth; [destruct (a_hold a) as [H0|] eqn:Eh| |]; inversion H; subst; try apply hp_ok_none.
+  intros cn a truth hp0 fp0 [Hh _] H. unfold immediate in H.
+  destruct (a_state a && _); [|inversion H; apply hp_ok_none].
+  destruct truth; [destruct cn; [destruct (a_hold a) as [H0|] eqn:Eh|]| |]; inversion H; subst; try apply hp_ok_none.
   intros te r E. cbn in E. rewrite Eh in E. inversion E; subst. lia.
 Qed.
 
-Lemma immediate_nostate : forall cn a truth, a_state a = false -> immediate cn a truth = (None, None).
+Lemma immediate_nostate : forall cn a truth, a_state a = false -> immediate cn a truth = (None, None, None).
 Proof. intros cn a truth H. unfold immediate. rewrite H. reflexivity. Qed.
 
 Lemma dm_timeout_all_off : forall a, dm_timeout all_off a = a_timeout a.
@@ -389,15 +377,15 @@ Proof.
       rewrite statics_nil.
       assert (Hfo : future_offs a = []) by (unfold future_offs; destruct (a_times a); [discriminate|reflexivity]).
       rewrite Hfo. destruct (a_timeout a) as [T|] eqn:ET; [|reflexivity].
-      rewrite (loop_spec a (Some T) false lg_zero Ha h L0 0 None Ht (hp_ok_none a 0)).
+      rewrite (loop_spec a (Some T) false lg_zero Ha h L0 0 None None Ht (hp_ok_none a 0)).
       unfold statics. rewrite ET. reflexivity.
-    + destruct (immediate cn a truth) as [[x|] hp0] eqn:EI; [reflexivity|].
+    + destruct (immediate cn a truth) as [[[x|] hp0] fp0] eqn:EI; [reflexivity|].
       rewrite statics_nil.
       destruct (negb (a_state a) && negb (a_event a)
                 && match future_offs a, a_timeout a with [], None => true | _, _ => false end) eqn:EN.
       * reflexivity.
       * cbn [all_off d_now_restarts d_leak_legacy d_hold_latest d_hold_attr_cancels].
-        rewrite (loop_spec a (a_timeout a) false _ Ha h _ 0 hp0 Ht (immediate_hp_ok cn a truth hp0 Ha EI)).
+        rewrite (loop_spec a (a_timeout a) false _ Ha h _ 0 hp0 fp0 Ht (immediate_hp_ok cn a truth hp0 fp0 Ha EI)).
         reflexivity.
   - unfold run_dm. rewrite Hcn, Hb, dm_timeout_all_off.
     destruct (no_args a && match a_timeout a with None => true | Some _ => false end) eqn:Hna.
@@ -407,7 +395,7 @@ Proof.
       rewrite statics_nil.
       assert (Hfo : future_offs a = []) by (unfold future_offs; destruct (a_times a); [discriminate|reflexivity]).
       rewrite Hfo. destruct (a_timeout a); [discriminate|reflexivity].
-    + destruct (immediate cn a truth) as [[x|] hp0] eqn:EI; [reflexivity|].
+    + destruct (immediate cn a truth) as [[[x|] hp0] fp0] eqn:EI; [reflexivity|].
       rewrite statics_nil. cbn [all_off d_none_eager d_leak_dm d_hold_latest d_hold_attr_cancels orb].
       (* the two formulations of "only exhausted time triggers" agree *)
       assert (Heq : (match a_times a with Some _ => true | None => false end
@@ -422,38 +410,39 @@ Proof.
       destruct (negb (a_state a) && negb (a_event a)
                 && match future_offs a, a_timeout a with [], None => true | _, _ => false end) eqn:EN.
       * reflexivity.
-      * rewrite (loop_spec a (a_timeout a) false _ Ha h _ 0 hp0 Ht (immediate_hp_ok cn a truth hp0 Ha EI)).
+      * rewrite (loop_spec a (a_timeout a) false _ Ha h _ 0 hp0 fp0 Ht (immediate_hp_ok cn a truth hp0 fp0 Ha EI)).
         reflexivity.
 Qed.
 
 (* ================================================================================================ *)
 (* 3. deaf outside the call                                                                          *)
 (* ================================================================================================ *)
-Lemma loop_fires : forall p L base hp h tm r,
+Lemma loop_fires : forall p L base hp fp h tm r,
   earliest (timers p base hp) = Some (tm, r) -> (forall t o, In (t, o) h -> tm <= t) ->
-  loop p L base hp h = done (XRet r) tm (lg_sub L (lp_subs p)).
+  loop p L base hp fp h = done (XRet r) tm (lg_sub L (lp_subs p)).
 Proof.
-  intros p L base hp h tm r He Hall. destruct h as [|[t o] rest]; cbn [loop]; rewrite He; [reflexivity|].
+  intros p L base hp fp h tm r He Hall. destruct h as [|[t o] rest]; cbn [loop]; rewrite He; [reflexivity|].
   replace (tm <=? t) with true; [reflexivity|]. specialize (Hall t o (or_introl eq_refl)). lia.
 Qed.
 
 (* whatever happens at or after the instant of the exit does not change it (any switches) *)
-Lemma loop_deaf_after : forall p L h1 h2 base hp,
-  r_exit (loop p L base hp h1) <> XPending ->
-  (forall t o, In (t, o) h2 -> r_time (loop p L base hp h1) <= t) ->
-  loop p L base hp (h1 ++ h2) = loop p L base hp h1.
+Lemma loop_deaf_after : forall p L h1 h2 base hp fp,
+  r_exit (loop p L base hp fp h1) <> XPending ->
+  (forall t o, In (t, o) h2 -> r_time (loop p L base hp fp h1) <= t) ->
+  loop p L base hp fp (h1 ++ h2) = loop p L base hp fp h1.
 Proof.
-  intros p L h1 h2. induction h1 as [|[t o] rest IH]; intros base hp Hx Hall.
+  intros p L h1 h2. induction h1 as [|[t o] rest IH]; intros base hp fp Hx Hall.
   - cbn [app]. cbn [loop] in Hx, Hall |- *.
     destruct (earliest (timers p base hp)) as [[tm r]|] eqn:He; [|cbn in Hx; congruence].
-    cbn in Hall. rewrite (loop_fires p L base hp h2 tm r He Hall). destruct h2; reflexivity.
+    cbn in Hall. rewrite (loop_fires p L base hp fp h2 tm r He Hall). destruct h2; reflexivity.
   - rewrite <- app_comm_cons. rewrite loop_cons in Hx, Hall |- *. rewrite loop_cons.
-    assert (HD : r_exit (deliver_of p L base hp t o rest) <> XPending ->
-                 (forall t' o', In (t', o') h2 -> r_time (deliver_of p L base hp t o rest) <= t') ->
-                 deliver_of p L base hp t o (rest ++ h2) = deliver_of p L base hp t o rest).
+    assert (HD : r_exit (deliver_of p L base hp fp t o rest) <> XPending ->
+                 (forall t' o', In (t', o') h2 -> r_time (deliver_of p L base hp fp t o rest) <= t') ->
+                 deliver_of p L base hp fp t o (rest ++ h2) = deliver_of p L base hp fp t o rest).
     { clear Hx Hall. destruct o as [r0 n|n| |r0 n|]; cbn [deliver_of].
-      - destruct (lp_state p); [|apply IH]. destruct r0; [destruct (lp_hold p)| |]; try (intros; reflexivity); apply IH.
-      - destruct (lp_state p); apply IH.
+      - destruct (lp_state p); [|apply IH].
+        destruct r0; [destruct (hf_passed (lp_hf p) fp t); [destruct (lp_hold p)|]| |]; try (intros; reflexivity); apply IH.
+      - destruct (lp_state p); [destruct (lp_attr_false p)|]; apply IH.
       - apply IH.
       - destruct (lp_event p); [|apply IH]. destruct r0; try (intros; reflexivity); apply IH.
       - intros; reflexivity. }
@@ -470,7 +459,7 @@ Proof.
   intros cfg legacy a L0 init pre h1 h2. unfold run. destruct legacy.
   - unfold run_legacy. destruct (no_args a).
     + destruct (a_timeout a); [apply loop_deaf_after|reflexivity].
-    + destruct (immediate _ a _) as [[x|] hp0]; [reflexivity|].
+    + destruct (immediate _ a _) as [[[x|] hp0] fp0]; [reflexivity|].
       destruct (a_badexpr a); [reflexivity|].
       match goal with |- context [if ?c then _ else _] => destruct c end; [reflexivity|].
       apply loop_deaf_after.
@@ -478,7 +467,7 @@ Proof.
     destruct (no_args a && match a_timeout a with None => true | Some _ => false end); [reflexivity|].
     destruct (a_badexpr a); [reflexivity|].
     match goal with |- context [if ?c then _ else _] => destruct c end; [reflexivity|].
-    destruct (immediate _ a _) as [[x|] hp0]; [reflexivity|].
+    destruct (immediate _ a _) as [[[x|] hp0] fp0]; [reflexivity|].
     match goal with |- context [if ?c then _ else _] => destruct c end; [reflexivity|].
     apply loop_deaf_after.
 Qed.
@@ -489,13 +478,13 @@ Lemma immediate_no_check : forall a truth truth', a_state a = false -> immediate
 Proof. intros a truth truth' H. unfold immediate. rewrite H. reflexivity. Qed.
 
 Lemma run_deaf_before : forall cfg legacy a L0 init pre init' pre' h,
-  truth_after init pre = truth_after init' pre' \/ a_state a = false \/ cn_eff legacy a = false ->
+  truth_after init pre = truth_after init' pre' \/ a_state a = false \/ (cn_eff legacy a = false /\ a_hf a = None) ->
   run cfg legacy a L0 init pre h = run cfg legacy a L0 init' pre' h.
 Proof.
   intros cfg legacy a L0 init pre init' pre' h H. unfold run.
   destruct H as [H|H]; [rewrite H; reflexivity|].
   assert (Hi : forall t t', immediate (cn_eff legacy a) a t = immediate (cn_eff legacy a) a t').
-  { intros t t'. unfold immediate. destruct H as [H|H]; rewrite H; [reflexivity|]. rewrite andb_false_r. reflexivity. }
+  { intros t t'. unfold immediate. destruct H as [H|[H1 H2]]; [rewrite H; reflexivity|]. rewrite H1, H2. rewrite andb_false_r. reflexivity. }
   destruct legacy.
   - unfold run_legacy. rewrite (Hi (truth_after init pre) (truth_after init' pre')). reflexivity.
   - unfold run_dm. rewrite (Hi (truth_after init pre) (truth_after init' pre')). reflexivity.
@@ -545,7 +534,8 @@ Qed.
 (* 5. refutations: with one switch on (= today's code) the witness of the finding violates the Spec  *)
 (* ================================================================================================ *)
 Definition w_args (st : bool) (cn : option bool) (times : option (list Z)) (ev : bool) (to : option Z) (bad : bool) : wargs :=
-  {| a_state := st; a_cn := cn; a_hold := None; a_times := times; a_event := ev; a_timeout := to; a_badexpr := bad |}.
+  {| a_state := st; a_cn := cn; a_hold := None; a_hf := None; a_times := times; a_event := ev; a_timeout := to;
+     a_badexpr := bad; a_shared := false |}.
 
 Lemma refuted_D18 : exists a init pre h,
   args_ok a /\ a_badexpr a = false /\ timed h /\
@@ -596,8 +586,8 @@ Proof.
 Qed.
 
 Definition w_hold_args : wargs :=
-  {| a_state := true; a_cn := Some false; a_hold := Some 2750; a_times := None; a_event := false; a_timeout := None;
-     a_badexpr := false |}.
+  {| a_state := true; a_cn := Some false; a_hold := Some 2750; a_hf := None; a_times := None; a_event := false;
+     a_timeout := None; a_badexpr := false; a_shared := false |}.
 
 Lemma refuted_D154 : exists a init pre h,
   args_ok a /\ a_badexpr a = false /\ timed h /\
@@ -627,8 +617,8 @@ Proof. vm_compute. repeat split. Qed.
 (* 6. the hypotheses are inhabited by non-trivial instances                                          *)
 (* ================================================================================================ *)
 Definition ex_args : wargs :=
-  {| a_state := true; a_cn := Some false; a_hold := Some 1750; a_times := Some [3250; -1000]; a_event := true;
-     a_timeout := Some 4500; a_badexpr := false |}.
+  {| a_state := true; a_cn := Some false; a_hold := Some 1750; a_hf := None; a_times := Some [3250; -1000]; a_event := true;
+     a_timeout := Some 4500; a_badexpr := false; a_shared := false |}.
 Definition ex_hist : hist :=
   [(1000, OEvent SFalse 1%N); (2000, OState STrue 2%N); (2125, OCancel); (3000, OState SFalse 3%N); (4000, OEvent STrue 4%N)].
 
